@@ -699,7 +699,7 @@ def extra(ctx):
 
 # ------------------------------------------------------------------------------------------------ cases
 
-def _enabled(kind, snap, lost_done, closed=False, aclose=0):
+def _enabled(kind, snap, lost_done, closed=False, aclose=0, no_send=None):
     bufsize, _dq, paused, statuses = snap
     out = []
     for t, st in enumerate(statuses):
@@ -707,9 +707,8 @@ def _enabled(kind, snap, lost_done, closed=False, aclose=0):
             out.append([A_CANCEL, t])
         elif kind == K_FLOW:
             out.append([A_SEND, t])
-        elif not closed:
-            # (no send after transport.close(): once a closing selector transport has flushed, CPython's write()
-            #  dereferences a dropped socket -- outside the property and outside the model)
+        elif not (closed if no_send is None else no_send):
+            # (see _no_more_sends)
             out += [[A_SEND, t, 3, 0], [A_SEND, t, 3, 2], [A_SEND, t, 3, 3]]
     if kind == K_FLOW:
         out.append([A_PAUSE])
@@ -729,16 +728,28 @@ def _enabled(kind, snap, lost_done, closed=False, aclose=0):
     return out
 
 
-def _no_more_sends(kind, acts):
-    """stream transports: no send after close(); datagram transports: no send after close() or death (an unconnected
-    CPython datagram transport does not drop such writes, it dereferences its released socket)"""
+def _no_more_sends(kind, acts, snap=None):
+    """Sends on a closing / dead transport that the generator leaves out, because CPython's transport (not /repo)
+    misbehaves there:
+    * after the adapter's aclose() (stream: write_eof() was called, write() raises RuntimeError);
+    * after transport.close() once the flush is over: the closing selector transport has released its socket without
+      counting a lost connection, write()/sendto() dereference None;   [while the flush is still in progress the send is
+      an ordinary buffered write: generated, and the sender is failed when the flush ends];
+    * after the transport died: fine for write() (data dropped, drain raises: generated for send_all); CPython 3.12.1
+      writelines() has no `_conn_lost` check and an unconnected datagram transport does not drop the datagram: both end
+      in AttributeError on the released loop / socket."""
     if kind == K_FLOW:
         return False
-    if kind == K_SEND_ALL:
-        return any(a[0] in (A_CLOSE, A_ACLOSE) for a in acts)
-    # CPython 3.12.1 writelines() has no `_conn_lost` check either: after connection_lost it raises AttributeError
-    # (released loop) instead of dropping the data -- same interpreter defect as F6, recorded in the notes
-    return any(a[0] in (A_CLOSE, A_ACLOSE, A_LOST) for a in acts)
+    if any(a[0] == A_ACLOSE for a in acts):
+        return True
+    lost = any(a[0] == A_LOST for a in acts)
+    closed = any(a[0] == A_CLOSE for a in acts)
+    if closed:
+        # (writelines() on a closing CPython 3.12 transport calls its `_write_ready`, which close() has set to None)
+        return kind == K_SEND_ITER or lost or snap is None or snap[0] == 0
+    if lost:
+        return kind != K_SEND_ALL
+    return False
 
 
 def _aclose_state(acts):
@@ -761,8 +772,8 @@ def _bfs(kind, ntasks, max_actions, budget):
             if used >= max_actions:
                 continue
             lost_done = any(a[0] == A_LOST for a in acts)
-            closed = _no_more_sends(kind, acts)
-            for a in _enabled(kind, snap, lost_done, closed or any(x[0] in (A_CLOSE, A_ACLOSE) for x in acts), _aclose_state(acts)):
+            closed = _no_more_sends(kind, acts, snap)
+            for a in _enabled(kind, snap, lost_done, any(x[0] in (A_CLOSE, A_ACLOSE) for x in acts), _aclose_state(acts), closed):
                 for tail in ([[A_SETTLE]], [[A_TICK], [A_SETTLE]]):
                     acts2 = acts + [a] + tail
                     snaps, _, _ = execute(kind, ntasks, acts2)
@@ -778,8 +789,8 @@ def _bfs(kind, ntasks, max_actions, budget):
 def _random(kind, ntasks, rng, rounds):
     acts, snap, lost_done = [], [0, 0, 0, [0] * ntasks], False
     for _ in range(rounds):
-        en = _enabled(kind, snap, lost_done, _no_more_sends(kind, acts) or any(x[0] in (A_CLOSE, A_ACLOSE) for x in acts),
-                      _aclose_state(acts))
+        was_closed = any(x[0] in (A_CLOSE, A_ACLOSE) for x in acts)
+        en = _enabled(kind, snap, lost_done, was_closed, _aclose_state(acts), _no_more_sends(kind, acts, snap))
         if kind != K_FLOW:
             en = [a if a[0] != A_SEND else [A_SEND, a[1], rng.choice([1, 2, 5, 9]), a[3]] for a in en]
             en = [a if a[0] != A_READY else [A_READY, rng.choice([1, 2, 3, 1 << 16])] for a in en]
@@ -796,6 +807,9 @@ def _random(kind, ntasks, rng, rounds):
                     (a[0] in bad_with_send and any(b[0] == A_SEND for b in batch))
                     or (a[0] == A_SEND and any(b[0] in bad_with_send for b in batch))):
                 continue        # see _no_more_sends
+            if kind != K_FLOW and was_closed and ((a[0] == A_READY and any(b[0] == A_SEND for b in batch))
+                                                  or (a[0] == A_SEND and any(b[0] == A_READY for b in batch))):
+                continue        # the flush may end before the send starts: see _no_more_sends
             used.add(key)
             batch.append(a)
         if not batch:
@@ -857,6 +871,11 @@ def cases(tier, rng, escalate):
             for ending in ([[A_LOST, 0], S], [[A_LOST, 1], S], [[A_READY, 1 << 16], S], [[A_READY, 1], T, [A_LOST, 1], S]):
                 for senders in ([[A_SEND, 0, 3, 0], S], [[A_SEND, 0, 3, 0], [A_SEND, 1, 2, 0], S]):
                     yield _case(kind, 2, senders + closing + ending, "scenario")
+    # a send issued while a closed transport is still flushing, then the flush ends / the transport dies
+    for kind in (K_SEND_ALL, K_DGRAM_EP, K_DGRAM_LISTENER):
+        for late in ([[A_SEND, 1, 2, 0], S], [[A_SEND, 1, 2, 0], T]):
+            for ending in ([[A_READY, 1 << 16], S], [[A_READY, 1], S, [A_READY, 1 << 16], S], [[A_LOST, 1], S], [[A_CANCEL, 1], S, [A_READY, 1 << 16], S]):
+                yield _case(kind, 2, [[A_SEND, 0, 3, 0], S, [A_CLOSE], S] + late + ending, "scenario")
     for _ in range(8000 if thorough else 1200):
         kind = rng.choice(kinds)
         ntasks = rng.choice([1, 2, 3, 3])
